@@ -302,6 +302,39 @@ def fix_side(exe, a, s, rng, backup, stats, cfg):
             return out
     return out
 
+def stamp_side(exe, a, s, rng, stats, cfg):
+    """hashes are kept without reading only for a file that keeps inode, size AND time-stamp: a file recorded with a
+    whole-second time-stamp and rewritten within the same second (same size, sub-second part now non-zero) must be
+    read again: after the sync its recorded hashes are those of the new bytes (check passes, fix gives the new bytes)"""
+    out = []
+    zs = [(d, rel) for (d, rel) in s.existing_files() if rel.startswith('zero/') and os.path.getsize(a.path(d, rel)) > 0]
+    if not zs: return out
+    d, rel = rng.choice(zs)
+    p = a.path(d, rel); st = os.stat(p)
+    newb = rng.bytes(st.st_size)
+    inplace = rng.chance(1, 2)
+    if inplace:
+        with open(p, 'r+b') as f: f.write(newb)
+    else:
+        os.unlink(p)
+        with open(p, 'wb') as f: f.write(newb)
+    t = (st.st_mtime_ns // 10**9) * 10**9 + 1 + rng.below(999_999_998)
+    os.utime(p, ns=(t, t))
+    s.log('same-second rewrite of %s/%r (%s), recorded sub-second part zero' % (d, rel, 'in place' if inplace else 'new inode'))
+    stats['same_second'] = stats.get('same_second', 0) + 1
+    r = s.run('sync', '--force-empty', '--force-zero', opts=a.opts)
+    if r.rc != 0: return out
+    c = a.cmd('check')
+    if c.rc != 0:
+        out.append(('(%s) [stamp-trusted] a file rewritten within the second of its recorded whole-second time-stamp keeps its old hashes: check fails after a successful sync (exit %d)' % (cfg, c.rc), '\n'.join(t for t in c.tags if t.startswith('error'))[:1500] + '\n' + '\n'.join(s.history)))
+        return out
+    os.unlink(p)
+    f = a.cmd('fix')
+    got = open(p, 'rb').read() if os.path.isfile(p) else None
+    if got != newb:
+        out.append(('(%s) [stamp-trusted] after the sync, fix of the rewritten file %s/%r returns %s' % (cfg, d, rel, 'nothing' if got is None else 'other bytes than the ones synced'), '\n'.join(s.history)))
+    return out
+
 def scenario(exe, root, seed, stats):
     rng = e2e.Rng(seed)
     hs = rng.choice([16, 16, 8])
@@ -328,13 +361,14 @@ def scenario(exe, root, seed, stats):
     shutil.copytree(a.root, backup, symlinks=True)
     s.remember(); base_store = dict(s.store)
     for rnd in range(3):
-        side = rng.choice(['sync', 'sync', 'fix'])
+        side = rng.choice(['sync', 'sync', 'fix', 'stamp'])
         if rnd: restore(a, backup)
         s.removed_sources = set()
         s.store = dict(base_store)      # versions of other rounds are gone with the restore (planted paths can repeat with other bytes)
         s.history.append('--- round %d (%s side), from the synced base' % (rnd, side))
         try:
             if side == 'sync': out = sync_side(exe, a, s, rng.fork(), mk(backup + '.w'), stats, cfg)
+            elif side == 'stamp': out = stamp_side(exe, a, s, rng.fork(), stats, cfg)
             else: out = fix_side(exe, a, s, rng.fork(), backup + '.w', stats, cfg)
         finally:
             shutil.rmtree(backup + '.w', ignore_errors=True)
